@@ -156,6 +156,7 @@ Leaves(s, ns, ss) ==
       \cup (IF s = "Int" THEN {IntC(1)} ELSE {})
       \cup (IF s = "Int" /\ Fam \in {"e2e", "e2et"} THEN {Name("CUT")} ELSE {})        \* a captured module-level constant
       \cup (IF s = "Bool" /\ Enabled("True") THEN {BoolC(TRUE)} ELSE {})
+      \cup (IF s = "Bool" /\ Fam = "comp" THEN {IntC(0)} ELSE {})     \* a constant condition that is falsy without being False
       \cup (IF s = "Bool" /\ (Fam \in {"comp", "fused", "betaw"} \/ Rand)      \* (random walks must never dead-end on a Boolean hole)
             THEN {Cmp(">", f, IntC(1)) : f \in VarsOf("Int", ns, ss) \cup FieldRefs("Int", ns, ss)} ELSE {})
       \cup (IF s = "Bool" /\ Fam = "e2el"
@@ -344,6 +345,10 @@ NonLeaf(h) ==
                      sp \in Split2(r), x \in Binders, nm \in {"Foo", "SelectedJets", "PreSelect", "select"}} : y \in {"Jet"}}
        ELSE {}) \cup
       (IF s = "Int" /\ Enabled("OtherMeth") THEN
+          \* two (three) attribute accesses in a row on the result of a method-form operator: seq.First().p4.pt
+          {Attr(Attr(c, "p4"), "pt") : c \in Forms("First", Hole("SeqJet", r, ns, ss), <<>>)} \cup
+          {Attr(Attr(Attr(c, "p4"), "vec"), "x") : c \in Forms("First", Hole("SeqJet", r, ns, ss), <<>>)} \cup
+          {Meth(Attr(Attr(c, "p4"), "me"), "pt", <<>>) : c \in Forms("First", Hole("SeqJet", r, ns, ss), <<>>)} \cup
           {Meth(v, nm, <<>>) : v \in VarsOf("Jet", ns, ss) \cup VarsOf("Evt", ns, ss), nm \in {"SumEt", "CountAbove", "FirstTrack"}} \cup
           {Meth(Hole("SeqJet", r, ns, ss), nm, <<>>) : nm \in {"CountAbove", "MaxPt", "Counts"}}
        ELSE {}) \cup
@@ -480,7 +485,7 @@ NonLeaf(h) ==
           {Fn("h_d3", <<Hole("Int", sp[1], ns, ss), Hole("Int", sp[2], ns, ss)>>) : sp \in Split2(r)} \cup
           {CallK(Name("h_d3"), <<Hole("Int", sp[1], ns, ss)>>, <<"z">>, <<Hole("Int", sp[2], ns, ss)>>) : sp \in Split2(r)} \cup
           \* positional-only and keyword-only parameters
-          {Fn(hn, <<Hole("Int", sp[1], ns, ss), Hole("Int", sp[2], ns, ss)>>) : hn \in {"h_po", "h_po2", "h_kwi"}, sp \in Split2(r)} \cup
+          {Fn(hn, <<Hole("Int", sp[1], ns, ss), Hole("Int", sp[2], ns, ss)>>) : hn \in {"h_po", "h_po2", "h_kwi", "h_pg"}, sp \in Split2(r)} \cup
           {CallK(Name(hn), <<Hole("Int", sp[1], ns, ss)>>, <<"b">>, <<Hole("Int", sp[2], ns, ss)>>) :
               hn \in {"h_po2", "h_ko", "h_kod"}, sp \in Split2(r)} \cup
           {Fn("h_kod", <<Hole("Int", r, ns, ss)>>)}
